@@ -1,13 +1,19 @@
 """C05 -- device messages fan out to every client, subject to its BLOB policy."""
-from pyvc.runner import Check, run_tasks
+from pyvc.runner import Check, TaskSpec, run_tasks, PY_FULL
+from contracts import transport as T
 from checks import c04
 
 
 def run(tier, seed):
     chk = Check("C05", tier, seed)
-    chk.add_results(run_tasks(c04.router_specs()))
+    endpoint = [TaskSpec("endpoint[%s]" % w, "contracts.transport", "task_endpoint_frame", (w,), replay_kind="router.endpoint_frame",
+                         python=PY_FULL, scenario=True) for w in ("tcp-server", "tty")]
+    chk.add_results(run_tasks(c04.router_specs() + endpoint))
     c04.router_functions(chk)
-    c04.router_trust(chk)
+    for f in (T.TCP_S, T.TTY_S):
+        chk.function(f, "ConnectionHandler.__init__")
+        chk.function(f, "ConnectionHandler.message_from_device")
+    c04.router_trust(chk, client_endpoints_discharged=True)
     chk.min_obligations = 60
     chk.standin_on_out_of_reach("native router enumeration", "router.enumerate", {}, always=True,
                                 bound_text="every message tag x sender (absent, unregistered, each client, each device) x 0-2 devices (accepting or not) x 0-2 clients with every BLOB policy")
